@@ -185,7 +185,9 @@ class Unparser:
 
 
 WS_ALPHABET = [' ', '\t', '\n', '\r\n', '  ', ' // c\n', ' /* c */ ', '/* é世 */', ' //ü \U0001F44D\n', '/* * / ** */',
-               '/**/', '\n\n', ' /* a\n b */ ', '/** banner **/', '/***/', ' /****\n * x *\n ****/ ', '/* a **/ ', '// */\n', '/*//*/', '/* /* */']
+               '/**/', '\n\n', ' /* a\n b */ ', '/** banner **/', '/***/', ' /****\n * x *\n ****/ ', '/* a **/ ', '// */\n', '/*//*/', '/* /* */',
+               # every kind of white space the lexer skips (\s of the regex crate = Unicode White_Space): VT, FF, NEL, no-break, ogham, en quad .. hair, line / paragraph separator, narrow, math, ideographic
+               '\x0b', '\x0c', '\u0085', '\u00a0', '\u1680', '\u2000', '\u2003', '\u200a', '\u2028', '\u2029', '\u202f', '\u205f', '\u3000', '\r']
 
 
 def join(tokens, rng=None, decorate=0.0):
